@@ -9,7 +9,7 @@ From Coq Require Import List Bool Arith NArith.
 Import ListNotations.
 Require Import Kinds Automaton PyStr Line Matcher Ast Builder Pipeline PipelineFacts Dialects
                RefSem Nesting C02Lemmas Delivery DeliveryInst KeywordFacts BuilderFacts DocStringFacts Table
-               BuilderSafe ConserveDefs ConserveMain.
+               BuilderSafe MatcherTyping DenseMain ConserveDefs ConserveMain.
 
 (* each physical line is delivered exactly once, in source order, then one EOF (accepted documents) *)
 Theorem C03_every_line_once : forall stop m b src c, wf_ms m ->
@@ -65,7 +65,9 @@ Proof. exact step_transform. Qed.
 Print Assumptions C03_step.
 
 (* conservation: for every accepted source there is one matched token per physical line (and the EOF), in
-   source order (`source_keys`), each matched as some kind `k` with the fields `tok_ok k` promises, such that
+   source order (`source_keys`: the token's line is the i-th piece of the source, its line number i), each being
+   what `TokenMatcher.match_<k>` makes of the scanner's raw token of that very line in some well-formed matcher
+   state (`tok_made`; so the title / step / tag / cell theorems of C04, C05, C12 apply to it), such that
    the AST, read in source order (tags, keyword line, then children: `doc_elems`), is exactly the concatenation
    of the elements of those tokens (`tok_elems`: keyword line -> keyword as written + trimmed rest + location;
    tag line -> one tag per item with its column; table row -> its cells), and the document's comment list is
@@ -74,7 +76,7 @@ Print Assumptions C03_step.
 Theorem C03_conservation : forall stop m b src d m1 b1 n, wf_ms m -> parse_source stop m b src = POk d m1 b1 n ->
   exists kts : list (kind * token),
     map (fun kt => tkey (snd kt)) kts = source_keys src
-    /\ Forall (fun kt => tok_ok (fst kt) (snd kt)) kts
+    /\ Forall (fun kt => tok_made (fst kt) (snd kt)) kts
     /\ doc_elems d = flat_map kt_elems kts
     /\ doc_comments d = flat_map kt_comments kts.
 Proof. exact source_conservation. Qed.
@@ -113,3 +115,9 @@ Example C03_conservation_sample :
   | None => False
   end.
 Proof. vm_compute. repeat split. Qed.
+
+(* reading `tok_made` together with `source_keys`: the raw token of a matched token is the scanner's token of
+   the i-th piece of the source *)
+Theorem C03_token_of_line : forall t text i, tkey t = (Some (make_line text i), i) -> canon t = raw_token text i.
+Proof. intros t text i H. unfold tkey in H. inversion H as [[H1 H2]]. unfold canon, raw_token. rewrite H1, H2. reflexivity. Qed.
+Print Assumptions C03_token_of_line.
